@@ -49,7 +49,10 @@ def gen_abbr_case(rng, d2=False, field_parents=False, flags=None):
     and children - built to hit the recorded finding, never mixed into D1."""
     tree = gen_abbr.gen_tree(rng, names=NAMES, p_text=0.25, texts=TEXTS, attrs=ATTRS, p_attr=0.3, p_class=0.3, p_id=0.2, p_nameless=0.08,
                              p_group=0.15, p_rep=0.15, max_rep=3, classes=['c1', 'c2', 'c3'], ids=['i1', 'i2', 'i3'],
-                             max_depth=rng.choice([2, 3, 3, 4, 5]), max_children=rng.choice([2, 3]))
+                             **(dict(max_depth=rng.choice([2, 3, 3, 4, 5]), max_children=rng.choice([2, 3])) if rng.random() < 0.9 else
+                                dict(max_depth=rng.choice([8, 10, 12]), max_children=rng.choice([1, 2]), p_children=0.92)))
+    if gen_abbr.depth_of(tree) > 6:
+        gen_abbr.thin_reps(tree, rng)
     parents = []
 
     def fix(nodes):
